@@ -14,7 +14,13 @@ DEFAULT_SETS = {
     'plain': [('alpha', 'role:dflt_alpha', None, None), ('gamma', 'role:dflt_gamma', None, None)],
     'deprecated': [('alpha', 'role:new_alpha', ('old_alpha', 'role:old_alpha'), None),
                    ('gamma', 'role:new_gamma', ('gamma', 'role:old_gamma'), None)],
+    # registered defaults that REFER to names the files define, redefine and drop (the check objects of a registered
+    # default live as long as the enforcer; those parsed from files are rebuilt by every reload)
+    'referring': [('alpha', 'role:dflt_alpha', None, None), ('gamma', 'rule:beta or role:dflt_gamma', None, None),
+                  ('epsilon', 'rule:alpha', None, None), ('zeta', 'not rule:delta', None, None),
+                  ('eta', 'rule:old_alpha and rule:beta', None, None)],
 }
+DEFAULT_SETS['deprecated-old'] = DEFAULT_SETS['deprecated']      # the same, with enforce_new_defaults off
 PROBE_ROLES = ['dflt_alpha', 'dflt_gamma', 'new_alpha', 'old_alpha', 'new_gamma', 'old_gamma'] + \
               ['v%d' % i for i in range(1, 60)]
 
@@ -94,10 +100,11 @@ def run_history(root, ops, start_with_main, dset):
         fs.write_main({'alpha': 'role:v1', 'beta': 'role:v1'}, 'json')
     fs.sync()
     defaults = DEFAULT_SETS[dset]
-    e = make_enforcer(root, defaults)
+    enw = dset != 'deprecated-old'
+    e = make_enforcer(root, defaults, enforce_new_defaults=enw)
     steps_wire = []
     observed = []
-    names = ['alpha', 'beta', 'gamma', 'delta', 'old_alpha']
+    names = ['alpha', 'beta', 'gamma', 'delta', 'old_alpha'] + (['epsilon', 'zeta', 'eta'] if dset == 'referring' else [])
     viol = None
     evals = 0
     for i, op in enumerate([None] + list(ops)):
@@ -112,7 +119,7 @@ def run_history(root, ops, start_with_main, dset):
         obs = observe(e)
         steps_wire.append([fs.wire(), 0])
         observed.append(obs)
-        fresh = make_enforcer(root, defaults)
+        fresh = make_enforcer(root, defaults, enforce_new_defaults=enw)
         dec_fresh = decisions(fresh, names)
         obs_fresh = observe(fresh)
         evals += 1
@@ -126,7 +133,7 @@ def run_history(root, ops, start_with_main, dset):
                      'observed': obs['rules'] if isinstance(dec_long, dict) else dec_long})
             break
     corr = None
-    mod = model_history([1, enc_defaults(defaults), 1], steps_wire)
+    mod = model_history([1 if enw else 0, enc_defaults(defaults), 1], steps_wire)
     for i, (m, o) in enumerate(zip(mod, observed)):
         if m != o:
             corr = ({'ops': list(ops[:i]), 'start_with_main': start_with_main, 'defaults': dset}, m, o)
@@ -156,7 +163,7 @@ def run(run, binfo):
     for n in range(0, maxlen + 1):
         for ops in itertools.product(OPS, repeat=n):
             for start in (True, False):
-                hist.append((ops, start, 'plain' if (len(hist) % 3) else 'deprecated'))
+                hist.append((ops, start, ['deprecated', 'plain', 'referring', 'deprecated-old', 'plain', 'referring'][len(hist) % 6]))
     if tier == 'quick':
         # all histories of length <= 2, a stride of those of length 3
         extra = [(ops, s, 'plain') for ops in itertools.product(OPS, repeat=3) for s in (True, False)]
@@ -166,7 +173,7 @@ def run(run, binfo):
     for _ in range(nrand):
         n = rng.randint(4, 40)
         hist.append((tuple(rng.choice(OPS) for _ in range(n)), rng.random() < 0.5,
-                     rng.choice(['plain', 'deprecated'])))
+                     rng.choice(['plain', 'deprecated', 'referring', 'deprecated-old'])))
     import multiprocessing as mp
     nproc = 14
     chunks = [(i, hist[i::nproc]) for i in range(nproc)]
@@ -191,7 +198,7 @@ def run(run, binfo):
                       {'kind': 'broken-obligation', 'obligation': 'correspondence suite S5 (histories)',
                        'input': c, 'model': m, 'observed': o, 'count': len(bad_corr)})
     run.rule = ('all histories of length <= %d over the %d operations %r (plus a stride of length-3 ones in quick), starting with '
-                'and without a main file, plain and deprecated registered defaults, and %d random histories of 4-40 operations; '
+                'and without a main file, plain / deprecated (enforce_new_defaults on and off) / file-name-referring registered defaults, and %d random histories of 4-40 operations; '
                 'real files with synthetic strictly increasing mtimes; after every operation the long-lived enforcer enforces '
                 '(implicit load) and is compared -- Enforcer.rules and decisions for 5 names x 27 roles -- with a newly '
                 'constructed enforcer on the same files, and with the model (rules, file_rules, cache). non-trivial = distinct histories'
